@@ -100,10 +100,14 @@ fn conv_model(from: u8, to: u8, v: i64) -> Result<Option<i64>, ()> {
     }
 }
 
+/// thorough tier: denser lattice (set once in main before any use)
+static DENSE: std::sync::atomic::AtomicBool = std::sync::atomic::AtomicBool::new(false);
+
 fn lattice(u: u8) -> Vec<i64> {
+    let dense = DENSE.load(std::sync::atomic::Ordering::Relaxed);
     let mut v: Vec<i128> = vec![NAT as i128, NAT as i128 + 1, i64::MAX as i128, 0, 1, -1];
     for r in [1_000i128, 1_000_000, 1_000_000_000] {
-        let mut qs: Vec<i128> = (-3..=3).collect();
+        let mut qs: Vec<i128> = if dense { (-60..=60).collect() } else { (-3..=3).collect() };
         qs.extend([i64::MAX as i128 / r, -(i64::MAX as i128 / r), i64::MAX as i128 / (r * r), -(i64::MAX as i128 / (r * r))]);
         for q in qs {
             for rho in [0, 1, 2, r / 2 - 1, r / 2, r / 2 + 1, r - 2, r - 1] {
@@ -121,6 +125,12 @@ fn lattice(u: u8) -> Vec<i64> {
             }
             let first = NaiveDate::from_ymd_opt(y, m, 1).unwrap().and_hms_opt(0, 0, 0).unwrap().and_utc().timestamp() as i128 * p;
             v.extend([first - 1, first, first + 1]);
+            if dense {
+                // the 15th at 12:34:56 and +- one unit, the 28th at 23:59:59
+                let mid = NaiveDate::from_ymd_opt(y, m, 15).unwrap().and_hms_opt(12, 34, 56).unwrap().and_utc().timestamp() as i128 * p;
+                let late = NaiveDate::from_ymd_opt(y, m, 28).unwrap().and_hms_opt(23, 59, 59).unwrap().and_utc().timestamp() as i128 * p;
+                v.extend([mid - 1, mid, mid + 1, late, late + p - 1]);
+            }
         }
     }
     let mut out: Vec<i64> = v.into_iter().filter(|x| *x >= i64::MIN as i128 && *x <= i64::MAX as i128).map(|x| x as i64).collect();
@@ -395,6 +405,7 @@ fn stateright_crosscheck(depth: usize) -> (usize, usize) {
 fn main() {
     let run = Run::from_args("C16");
     let depth = run.pick(2, 3);
+    DENSE.store(!run.quick(), std::sync::atomic::Ordering::Relaxed);
     let mut ctx = Ctx::new();
     let n_roots: usize = (0..4u8).map(|u| lattice(u).len()).sum();
     if let Some(path) = &run.replay {
